@@ -14,21 +14,13 @@ import re
 import token
 
 from sa.model import AnalysisError, walk_shallow, dotted, norm
-from sa.util import cfg_of, shallow_calls, const_str, guarded_by_edge, strip_not
+from sa.util import regex_uses, cfg_of, shallow_calls, const_str, guarded_by_edge, strip_not
 
 AUG = {'+=', '-=', '*=', '/=', '//=', '%=', '@=', '&=', '|=', '^=', '>>=', '<<=', '**='}
 
 
-def regex_literals(f):
-    out = []
-    for c in shallow_calls(f.node):
-        d = dotted(c.func)
-        if d in ('re.search', 're.match', 're.compile', 're.findall', 're.fullmatch') and c.args:
-            s = const_str(c.args[0])
-            if s is None:
-                raise AnalysisError('%s: regex is not a string literal' % f.qualname)
-            out.append((d, s, c))
-    return out
+def regex_literals(f, model=None):
+    return [(how, pat, c) for how, pat, c, _rest in regex_uses(model, f) if how in ('re.search', 're.match', 're.findall', 're.fullmatch')]
 
 
 def check(run, model, tier):
@@ -123,7 +115,7 @@ def check(run, model, tier):
                                          'statement ends with the lock still held and every other thread blocks on the attribute' % flag), node=n_.ast, obligation=True)
         run.floor('writes of the hand-over flag in __get__', n_w, 1)
     # ---- the regex table
-    lits = regex_literals(classifier)
+    lits = regex_literals(classifier, model)
     run.floor('regex literals in the line classifier', len(lits), 1)
     if len(lits) != 1:
         raise AnalysisError('line classifier has %d regex literals; the table rule expects one' % len(lits))
@@ -169,7 +161,7 @@ def check(run, model, tier):
     # the documented `_, _lock = obj.attr` form
     rq = cls.methods.get('request_for_lock')
     if rq is not None:
-        for how2, pat2, c2 in regex_literals(rq):
+        for how2, pat2, c2 in regex_literals(rq, model):
             r2 = re.compile(pat2)
             ok = r2.search('_, _lock = obj.attr') is not None and r2.search('x = obj.attr') is None
             run.inst('PROTO.keep-lock-branch', rq, 'lock-request form recognised', ok, 'the `_, _lock = obj.attr` form is not recognised', node=c2)
